@@ -444,6 +444,9 @@ func TestVerifC04Conc(t *testing.T) {
 	for i := 0; i < n; i++ {
 		pad := strings.Repeat("x", []int{0, 64, 1000, 3000}[(i+int(vfSeed()))%4])
 		nrepos := 24 + r.Intn(100)
+		if i%4 == 3 && nrepos > 40 {
+			nrepos = 24 + nrepos%17 // the world built through index.Merge (a builder and a file per repository) stays small
+		}
 		var gen []*vfC04Repo
 		for j := 0; j < nrepos; j++ {
 			rp := &vfC04Repo{name: fmt.Sprintf("repo%03d", j), pad: pad,
